@@ -147,7 +147,21 @@ where
 
     writeln!(writer, "#[derive(Debug, Default, YaSerialize, YaDeserialize)]")?;
     if let Some(tns) = &target_namespace {
-        let namespaces = format!("\"{}\" = \"{}\"", tns.abbreviation, tns.namespace);
+        // declare the struct's own namespace and every other namespace one of its element
+        // members lives in (inherited members, element references), so that no prefix is unbound
+        let mut used: Vec<&Rc<Namespace>> = vec![tns];
+        for field in fields.iter().filter(|f| !f.is_attribute) {
+            if let Some(ns) = &field.target_namespace {
+                if !used.iter().any(|u| u.abbreviation == ns.abbreviation) {
+                    used.push(ns);
+                }
+            }
+        }
+        let namespaces = used
+            .iter()
+            .map(|ns| format!("\"{}\" = \"{}\"", ns.abbreviation, ns.namespace))
+            .collect::<Vec<String>>()
+            .join(", ");
         writeln!(
             writer,
             "#[yaserde(prefix = \"{}\", namespaces = {{{}}}, rename = \"{}\")]",
